@@ -127,6 +127,44 @@ def menu_item(rng, objs, ident, version, uniq):
     return 'rnd_' + opn, G.random_op(rng, version, objs, opn)[1]
 
 
+FAILING = ('F_notfound', 'F_denied', 'F_activate_active', 'F_create_nolength', 'F_destroy_active', 'F_register_dupnames',
+           'F_delete_oob', 'F_modify_oob', 'F_set_name', 'F_create_dupnames', 'F_ckp_dupnames_private')
+
+
+def structured_batch(rng, objs, ident, version, uniq, bases):
+    """[creating item] [failing or explicit-id items]* [identifier-less items]+ : the shape in which the ID placeholder
+    has to survive whatever happens between the item that sets it and the items that use it."""
+    name = 'sb-%s-%d' % (ident[0], next(uniq))
+    mine = own(objs, ident)
+    base = bases.get(ident[0])
+    creating = [('create', op_create(names=[name])),
+                ('register', op_register('sym', secret_sym(FIXED), sym_attrs(length=256, masks=ALL_MASKS, names=[name]))),
+                ('create_key_pair', op_create_key_pair()),
+                ('register_secret', op_register('secret', secret_data(b'pass-' + name.encode()), [rig.attr(A.NAME, name_value(name), 0)]))]
+    if base is not None:
+        creating += [('derive_key', op_derive_key([base], attributes_list=sym_attrs(length=128, masks=ALL_MASKS, names=[name])))] * 2
+    items = [rng.choice(creating)]
+    for _ in range(rng.choice((0, 1, 1, 2))):
+        for _try in range(30):
+            l, o = menu_item(rng, objs, ident, version, uniq)
+            if l in FAILING or (l in ('get', 'locate', 'modify_name', 'add_group') and rng.random() < 0.3):
+                items.append((l, o))
+                break
+    n2 = 'ph-' + name
+    tail = [('get_ph', op_get(None)), ('getattrs_ph', op_get_attributes(None)), ('getattrlist_ph', op_get_attribute_list(None))]
+    if version < (2, 0):
+        tail += [('modify_name_ph', op_modify_attribute_1x(None, rig.attr(A.NAME, name_value(n2), 0))),
+                 ('add_group_ph', op_modify_attribute_1x(None, rig.attr(A.OBJECT_GROUP, 'grp-' + n2, 0))),
+                 ('delete_name0_ph', op_delete_attribute_1x(None, 'Name', 0)),
+                 ('F_delete_oob_ph', op_delete_attribute_1x(None, 'Name', 9))]
+    else:
+        tail += [('set_sensitive_ph', op_set_attribute(None, A.SENSITIVE, True)),
+                 ('delete_name_ph', op_delete_attribute_20(None, A.NAME, None, reference=True))]
+    for _ in range(rng.choice((1, 2, 2, 3))):
+        items.append(rng.choice(tail))
+    return items
+
+
 def mask_dump(dump, pre_uids):
     out = {}
     for t, rows in dump.items():
@@ -145,11 +183,21 @@ def run_case(ctx, case):
         srv = rig.Server(d + '/db.sqlite')
         try:
             objs = store.populate(srv, rng, n=9, owners=('alice', 'bob'))
+            bases = {}
+            for u in ('alice', 'bob'):
+                b_ = store.register(srv, 'sym', u, rng, masks=[E.CryptographicUsageMask.DERIVE_KEY], names=['derive-base-' + u], state='active')
+                if b_ is not None:
+                    bases[u] = b_.uid
             for rnd in range(40):
                 version = rng.choice(rig.VERSIONS)
                 ident = rng.choice(IDENTS)
                 n = rng.choice((1, 2, 2, 3, 3, 4, 5, 6))
-                items = [menu_item(rng, objs, ident, version, uniq) for _ in range(n)]
+                if rng.random() < 0.3:
+                    items = structured_batch(rng, objs, ident, version, uniq, bases)
+                    n = len(items)
+                    ctx.count('structured_placeholder_batches')
+                else:
+                    items = [menu_item(rng, objs, ident, version, uniq) for _ in range(n)]
                 labels = [l for l, _ in items]
                 ops = [o for _, o in items]
                 idmode = rng.choice(('all', 'all', 'all', 'all', 'all', 'none', 'partial', 'partial', 'dup'))
@@ -177,6 +225,7 @@ def run_case(ctx, case):
                 pre_dump = srv.dump()
                 pre_uids = set(r[0] for r in pre_dump.get('managed_objects', []))
                 shutil.copyfile(srv.db_path, d + '/twin.sqlite')
+                shutil.copyfile(srv.db_path, d + '/twin0.sqlite')
                 t0 = clock.now
                 res = srv.send_bytes(req, ident)
                 post_dump = srv.dump()
@@ -236,12 +285,13 @@ def run_case(ctx, case):
                 ctx.cell('batch', n, fpos, str(option), idmode, '%d.%d' % version)
                 # placeholder: a get_ph right after a creating success must return that object
                 for i in range(1, len(res.items)):
-                    if labels[i] in ('get_ph', 'getattrs_ph', 'activate_ph') and res.ok(i):
+                    if labels[i].endswith('_ph') and res.ok(i):
                         j = i - 1
-                        while j >= 0 and not (res.ok(j) and labels[j] in ('register', 'create', 'create_key_pair',
-                                                                           'rnd_create', 'rnd_register', 'rnd_derive_key')):
+                        while j >= 0 and not (res.ok(j) and labels[j] in ('register', 'create', 'create_key_pair', 'register_secret', 'derive_key',
+                                                                           'rnd_create', 'rnd_register', 'rnd_derive_key', 'rnd_create_key_pair',
+                                                                           'locate', 'rnd_locate')):
                             j -= 1
-                        if j >= 0 and labels[j] in ('register', 'create'):
+                        if j >= 0 and labels[j] in ('register', 'create', 'register_secret', 'derive_key'):
                             ctx.count('placeholder_checked')
                             if res.uid(i) != res.uid(j):
                                 ctx.violation('placeholder|%s' % labels[i],
@@ -293,6 +343,35 @@ def run_case(ctx, case):
                                   'final store differs from the run of the same batch without its failing items',
                                   dict(detail, dump_diff=rig.dump_diff(mask_dump(twin_dump, pre_uids),
                                                                        mask_dump(post_dump, pre_uids))))
+                # second twin, when several items failed under Continue: only the *first* failing item is taken out.  Every
+                # later item - the ones that fail as well - must answer as it did, because a failed item disturbs nothing
+                # (taking out all failing items at once cannot show a later item that fails only because of an earlier failure)
+                if len(fails) >= 2 and not stop and len(res.items) == n:
+                    keep2 = [i for i in range(n) if i != fails[0]]
+                    shutil.copyfile(d + '/twin0.sqlite', d + '/twin2.sqlite')
+                    clock.now = t0
+                    twin2 = rig.Server(d + '/twin2.sqlite', policies=srv.policies)
+                    try:
+                        treq2 = rig.encode_request(rig.build_request(version, [ops[i] for i in keep2], ids=[ids[i] for i in keep2],
+                                                                     error_option=option, order=order), version)
+                        tres2 = twin2.send_bytes(treq2, ident)
+                        twin2_dump = twin2.dump()
+                    finally:
+                        twin2.close()
+                    clock.now = t0 + 1
+                    ctx.count('first_failure_twins_compared')
+                    if tres2.error is None and len(tres2.items) == len(keep2):
+                        for j, i in enumerate(keep2):
+                            a, b = res.items[i], tres2.items[j]
+                            if (a['status'], a['reason'], a['message'], normp(a['payload'])) != \
+                                    (b['status'], b['reason'], b['message'], normp(b['payload'])):
+                                ctx.violation('twin-response|first-failure|%s' % cause,
+                                              'item %d (%s) answers %s in the batch and %s when only the first failing item (%s) is absent'
+                                              % (i, labels[i], res.brief()[i], tres2.brief()[j], labels[fails[0]]), detail)
+                                break
+                        if mask_dump(post_dump, pre_uids) != mask_dump(twin2_dump, pre_uids):
+                            ctx.violation('twin-store|first-failure|%s' % cause, 'final store differs from the run of the same batch without its '
+                                          'first failing item', dict(detail, dump_diff=rig.dump_diff(mask_dump(twin2_dump, pre_uids), mask_dump(post_dump, pre_uids))))
                 if not keep and post_dump != pre_dump:
                     ctx.violation('failed-item-changed-store|%s' % cause, 'all items failed but the store changed',
                                   dict(detail, dump_diff=rig.dump_diff(pre_dump, post_dump)))
